@@ -75,7 +75,7 @@ func (c12) Gen(r *R, tier string) any {
 	p := &C12Plan{Perm: r.Uint64()}
 	n := r.Range(1, 3)
 	for i := 0; i < n; i++ {
-		p.Cfgs = append(p.Cfgs, genCfg(r))
+		p.Cfgs = append(p.Cfgs, genCfgX(r))
 	}
 	k := r.Range(1, 3)
 	for i := 0; i < k; i++ {
